@@ -157,7 +157,7 @@ sds_close	(SF_PRIVATE *psf)
 			} ;
 
 		if (psds->write_count > 0)
-		{	memset (&(psds->write_data [psds->write_count]), 0, (psds->samplesperblock - psds->write_count) * sizeof (int)) ;
+		{	memset (&(psds->write_samples [psds->write_count]), 0, (psds->samplesperblock - psds->write_count) * sizeof (int)) ;
 			psds->writer (psf, psds) ;
 			} ;
 
